@@ -203,6 +203,19 @@ chk("C14",
     "sensors inside or all retained sensors collinear are not judged; 'all seeds' is sampled.",
     "TLA+ kernel specs (Voronoi, McStats) model-checked with TLC; one implementation test per TLC case; scripted random generator", "DESIGN.md#c14")
 
+chk("C07",
+    "spec/Readers.tla enumerates file sets of every format over all 6 orders of the traces/files/columns, channel-naming variants (BH?/HH?/EH?/"
+    "single letters; PEER UP/VER/azimuth codes/letter codes) and defects (missing, duplicated, unknown channel, header count +-1); TLC checks "
+    "that today's selection rules refine the property-level result (component map or error), order irrelevance and refusal of defects. The "
+    "harness writes the files of every case (miniSEED 1/3 files and SAC of both byte orders via obspy; SAF, MiniShark, PEER as text with \\n "
+    "and \\r\\n) and reads them through read_single/read: samples exact (float32 for integer text formats), time step, degrees_from_north, meta "
+    "file names, explicit orientation override, or the error. spec/ReadArgs.tla covers the 9 argument forms of read(). GCF: the shipped file "
+    "against a direct obspy read.",
+    "Trusted: TLC; spec/Readers.tla; obspy's writers and decoders for the binary formats (decode fidelity is obspy's). Judgement calls fixed "
+    "in DESIGN.md: non-standard SAF column orders may be refused; SAF orientation judged for N-first files only; PEER azimuth pairs for which "
+    "the smallest-relative-azimuth rule is not the right-handed assignment are implementation-tier only.",
+    "TLA+ kernel spec (Readers, ReadArgs) model-checked with TLC; the harness writes real files for every TLC case and reads them back", "DESIGN.md#c07")
+
 def main():
     man = dict(
         version=1,
